@@ -137,7 +137,12 @@ json_values = st.recursive(json_scalars, lambda c: st.one_of(
                            max_leaves=6)
 op_objects = st.fixed_dictionaries({'operator': st.one_of(st.sampled_from(OPERATORS), st.text(max_size=2), st.none()),
                                     'value': json_values})
-filters = st.recursive(st.one_of(json_values, op_objects), lambda c: st.lists(c, max_size=3), max_leaves=5)
+# lists of alternatives of any length (implementations may treat long lists differently from short ones)
+long_lists = st.lists(st.one_of(json_scalars, json_scalars, op_objects, json_values), min_size=4, max_size=40)
+filters = st.one_of(st.recursive(st.one_of(json_values, op_objects), lambda c: st.lists(c, max_size=3), max_leaves=5),
+                    st.recursive(st.one_of(json_values, op_objects), lambda c: st.lists(c, max_size=3), max_leaves=5),
+                    st.recursive(st.one_of(json_values, op_objects), lambda c: st.lists(c, max_size=3), max_leaves=5),
+                    long_lists)
 KEYS = ['x', 'y', '_tape_recorder_incomplete_recording', 'z z']
 pairs = st.tuples(st.dictionaries(st.sampled_from(KEYS), filters, max_size=3),
                   st.dictionaries(st.sampled_from(KEYS), json_values, max_size=4),
@@ -151,7 +156,8 @@ def random_part(ctx):
         desc = case_desc(f, m)
         desc['previous_filter'] = prev
         ctx.case(desc, nt, classes=('rnd:keys=%d' % len(f), 'rnd:filter-updated-in-place' if prev is not None else
-                                    'rnd:fresh-filter'))
+                                    'rnd:fresh-filter') + (('rnd:more-than-8-alternatives',) if any(
+                                        isinstance(fv, list) and len(fv) > 8 for fv in f.values()) else ()))
         check_pair(ctx, f, m)
         if prev is not None:
             check_pair_after(ctx, prev, f, m)
